@@ -56,3 +56,27 @@ PROPS["C01"] = dict(
     min_class_fraction={"binding_in_later_call_arg": 0.01, "binding_in_method_arg": 0.01, "binding_in_first_static_arg": 0.005,
                         "closure_depth_2": 0.01, "recursion": 0.01, "currying": 0.01, "closure_in_map_call": 0.005},
 )
+
+
+PROPS["C02"] = dict(
+    pkg="c02",
+    rule=("programs from the C01 generator with a constant-rich profile (literal-heavy sub-terms, constant closures applied to constants, "
+          "constant lists/maps with index/member access, if/switch on constant conditions, chains of the regroupable operator '*' mixing "
+          "constants and variables in every position, '&'/'|' on booleans and ints, string '+' chains, throw in taken and untaken "
+          "branches, calls of the host functions pk (declared pure) and ik (declared impure) with call counters). Three-way oracle: "
+          "optimizer on vs optimizer off vs reference interpreter (values; exact, 1e-9 relative only when a float product was rounded); "
+          "ik is never executed during Generate and runs equally often on both sides and - when it does not sit inside a closure body - "
+          "as often as the reference demands. The float and bool instantiations are covered by the sampled jobs of package c19 "
+          "(large random expressions, optimizer on/off). A case is non-trivial if the optimized AST differs from the unoptimized AST "
+          "and the program reads an argument or contains ik/throw; distinct = program text + arguments."),
+    assumptions=PROG_ASSUMPTIONS,
+    jobs=[
+        dict(name="c02", run="^TestPropC02$", kind="rapid", shards=16,
+             checks={"quick": 100000, "thorough": 3000000}, guard={"quick": 900, "thorough": 7200}),
+        dict(name="bool_sampled", pkg="c19", run="^TestPropBoolSampled$", kind="rapid", shards=4,
+             checks={"quick": 20000, "thorough": 500000}, guard={"quick": 600, "thorough": 3000}),
+        dict(name="float_sampled", pkg="c19", run="^TestPropFloatSampled$", kind="rapid", shards=4,
+             checks={"quick": 20000, "thorough": 500000}, guard={"quick": 600, "thorough": 3000}),
+    ],
+    min_class_fraction={"ast_changed_by_optimizer": 0.2, "impure_calls_executed": 0.01},
+)
